@@ -30,14 +30,15 @@ WsVariants == { M(<<>>),
 Md == M(<< <<U(FromSmall(674)), Tx(<<104, 105>>)>> >>)
 AuxOf(form) == CASE form = "map" -> Md [] form = "array" -> A(<<Md, A(<<NativeS(5)>>)>>)
                  [] form = "tag" -> T(259, M(<< <<U(Zero), Md>>, <<U(One), A(<<NativeS(5)>>)>>, <<U(FromSmall(3)), A(<<Bs(H(7, 5))>>)>> >>)) [] OTHER -> Sp(246)
-TxOf(ws, aux) == A(<<Body, ws, Sp(245), AuxOf(aux)>>)
+\* aux = <<arity, form>>: four elements, or the pre-Alonzo three-element layout without the validity flag
+TxOf(ws, aux) == IF aux[1] = 4 THEN A(<<Body, ws, Sp(245), AuxOf(aux[2])>>) ELSE A(<<Body, ws, AuxOf(aux[2])>>)
 OpsSet == {"vkey1", "vkey2", "boot1"}
 Histories == UNION {[1..n -> OpsSet] : n \in 0..MaxOps}
 W1 == M(<< <<U(Zero), T(258, A(<<VkeyW(9)>>))>> >>)
 W2 == M(<< <<U(Zero), A(<<VkeyW(9), VkeyW(9)>>)>>, <<U(One), T(258, A(<<NativeS(5)>>))>> >>)
-Cases == {[ws |-> w, aux |-> "none", dev |-> d, hist |-> h] : w \in WsVariants, d \in {<<<<-1>>, "none">>}, h \in Histories}
+Cases == {[ws |-> w, aux |-> <<4, "none">>, dev |-> d, hist |-> h] : w \in WsVariants, d \in {<<<<-1>>, "none">>}, h \in Histories}
     \cup UNION {{[ws |-> wa[1], aux |-> wa[2], dev |-> d, hist |-> h] : d \in Deviations(TxOf(wa[1], wa[2])), h \in {<<>>, <<"vkey1">>, <<"boot1">>, <<"vkey1", "boot1">>}} :
-                 wa \in {<<W1, "map">>, <<W2, "map">>, <<W1, "array">>, <<W1, "tag">>}}
+                 wa \in {<<W1, <<4, "map">>>>, <<W2, <<4, "map">>>>, <<W1, <<4, "array">>>>, <<W1, <<4, "tag">>>>, <<W1, <<3, "map">>>>, <<W1, <<3, "array">>>>}}
 Init == c \in Cases
 Next == UNCHANGED c
 Bytes == Enc(TxOf(c.ws, c.aux), <<>>, c.dev[1], c.dev[2])
